@@ -50,7 +50,11 @@ class LxmlEventHandler(XmlHandler):
             ctx = etree.iterwalk(source, EVENTS)
         elif self.parser.config.process_xinclude:
             tree = etree.parse(source, base_url=self.parser.config.base_url)  # nosec
-            tree.xinclude()
+            try:
+                tree.xinclude()
+            except etree.XIncludeError as e:
+                raise ParserError(e)
+
             ctx = etree.iterwalk(tree, EVENTS)
         else:
             ctx = etree.iterparse(
